@@ -13,8 +13,8 @@ from mdsim.props import _gen
 PROP = "C01"
 LEVEL = "exploration"
 TECHNIQUE = "deterministic simulation: seeded search over owned RNG draw schedules (S-RNG seam) + graph reference model"
-RUNS = {"quick": 6000, "thorough": 200000}
-BATCH = {"quick": 50, "thorough": 200}
+RUNS = {"quick": 20000, "thorough": 400000}
+BATCH = {"quick": 100, "thorough": 250}
 COMPONENTS = {
     "real": ["maze_dataset.generation.generators (all five generators)", "LatticeMaze constructor"],
     "stub": ["random.randint/choice, numpy.random.randint/choice/rand (owned by SimRNG in 'owned' runs; real+seeded in 'real' runs)"],
